@@ -211,10 +211,10 @@ MAY_COMPARE = (
 )
 
 
-def case_and_compare(ctx):
+def case_rule(ctx, rule):
+    """one notion of letter case (shared with C02)"""
     import re
     F, rep = ctx.F, ctx.rep
-    # ---- R4
     n = 0
     for fn in F.all_bodies(tests=False):
         if not (fn.file.startswith("src/frontend/") or fn.file.startswith("src/exec/")):
@@ -227,10 +227,15 @@ def case_and_compare(ctx):
             n += 1
             d = cal.get("def") or ""
             ok = "ascii" not in nm and (d.startswith("std::char::methods::<impl char>::") or d.startswith("std::str::<impl str>::") or d.startswith("alloc::str::<impl str>::"))
-            rep.ob("C15.R4", "case-function::%s::%s" % (common.top_fn(F, fn).path, nm), ok,
+            rep.ob(rule, "case-function::%s::%s" % (common.top_fn(F, fn).path, nm), ok,
                    "" if ok else "%s classifies / converts letter case with %s: a non-ASCII letter is treated differently from its re-cased spelling" % (common.top_fn(F, fn).path, d),
                    fn.loc(t["line"]), how="Unicode " + nm)
-    rep.floor("C15.R4", n, 6, "case classifications / conversions")
+    rep.floor(rule, n, 6, "case classifications / conversions")
+
+
+def case_and_compare(ctx):
+    F, rep = ctx.F, ctx.rep
+    case_rule(ctx, "C15.R4")
     # ---- R5
     targets = [i for i, inst in enumerate(F.insts)
                if any(("<frontend::ast::%s as std::%s" % (nt, tr)) in inst.def_ for nt in NAME_TYPES for tr in ("cmp::PartialEq>", "hash::Hash>", "cmp::Ord>", "cmp::PartialOrd>"))]
